@@ -123,7 +123,9 @@ func TestSim(t *testing.T) {
 		if time.Since(start) > budget {
 			break
 		}
-		idx := uint64(worker + k*nworkers)
+		// (the driver restarts the worker processes every few minutes - VSIM_IDXOFFSET continues the
+		// numbering - so that nothing a long-lived process accumulates slows the later runs down)
+		idx := uint64(envInt("VSIM_IDXOFFSET", 0)) + uint64(worker+k*nworkers)
 		gs := Mix(Mix(base, hashStr(prop)), idx)
 		spec := Spec{Prop: prop, GenSeed: gs, SchedSeed: Mix(gs, 7), Strategy: -1, Tier: tier}
 		sp := spec
